@@ -352,6 +352,23 @@ def make_recording_interpreter(holder):
     return RecInterp
 
 
+class EqCallable:
+    """A bound target.  All instances compare equal (as two bound methods of one object do), each has its own log: the
+    interpreter must tell its listeners apart by identity, not by the equality of what they wrap."""
+
+    def __init__(self, log):
+        self.log = log
+
+    def __call__(self, e):
+        self.log.append(ev_value(e))
+
+    def __eq__(self, other):
+        return isinstance(other, EqCallable)
+
+    def __hash__(self):
+        return 7
+
+
 class Scenario:
     """One monitored interpreter with its listeners, driven operation by operation."""
 
@@ -425,7 +442,7 @@ class Scenario:
             obj = fn
         elif kind == 'callable':
             self.calls[lid] = []
-            fn = (lambda l: (lambda e: l.append(ev_value(e))))(self.calls[lid])
+            fn = EqCallable(self.calls[lid])
             obj = self.interp.bind(fn)
         elif kind == 'interp':
             bi = Interpreter(arg, evaluator_klass=self.klass, clock=SimulatedClock())
